@@ -100,13 +100,11 @@ def evaluate_policy_matrix(arr, pi, pinned, gamma=None):
         members = [i for i in range(nS) if comp[i] == c]
         if any(pinned[i] for i in members):
             continue
-        # closed iff all outgoing mass stays inside and rows sum to 1
-        inside = True
-        for i in members:
-            out = P[i].copy()
-            if abs(out[members].sum() - 1.0) > 1e-12:
-                inside = False
-                break
+        # closed iff no member has a positive-probability successor outside (structural: an exit probability of 2^-50
+        # is an exit)
+        outside = np.ones(nS, dtype=bool)
+        outside[members] = False
+        inside = not bool((P[members][:, outside] > 0).any())
         if inside:
             closed_comp.append(members)
     recurrent = np.zeros(nS, dtype=bool)
@@ -155,7 +153,9 @@ def expected_steps(arr, pi, pinned, return_parts=False):
         members = [i for i in range(nS) if comp[i] == c]
         if any(pinned[i] for i in members):
             continue
-        if all(abs(P[i][members].sum() - 1.0) <= 1e-12 for i in members):
+        outside = np.ones(nS, dtype=bool)
+        outside[members] = False
+        if not bool((P[members][:, outside] > 0).any()):
             recurrent[members] = True
     reach_rec = reach[:, recurrent].any(axis=1) if recurrent.any() else np.zeros(nS, dtype=bool)
     Pt = P.copy()
